@@ -34,6 +34,31 @@ def trace (cfg : Cfg) : Sys → List Nat → List String → List String
     | some s' => trace cfg s' ts (showState cfg s :: acc)
     | none => (s!"disabled:{t}" :: showState cfg s :: acc).reverse
 
+def showXW : XW → String
+  | .idle => "idle"
+  | .run r => s!"run@{r.offset}"
+  | .exited => "exited"
+
+def showXM : XM → String
+  | .wait i => s!"wait{i}"
+  | .exiting _ => "exiting"
+  | .joining _ => "joining"
+  | .finished .raised => "raised"
+  | .finished (.data o) => "data:" ++ ",".intercalate (o.map fun r => toString r.offset)
+
+def xenabled (f : Req → Bool) (s : XSys) : List Nat :=
+  (List.range (s.workers.length + 1)).filter fun t => (xstep f s t).isSome
+
+def showXState (f : Req → Bool) (s : XSys) : String :=
+  s!"{showXM s.main}|{",".intercalate (s.workers.map showXW)}|{",".intercalate ((xenabled f s).map toString)}"
+
+def xtrace (f : Req → Bool) : XSys → List Nat → List String → List String
+  | s, [], acc => (showXState f s :: acc).reverse
+  | s, t :: ts, acc =>
+    match xstep f s t with
+    | some s' => xtrace f s' ts (showXState f s :: acc)
+    | none => (s!"disabled:{t}" :: showXState f s :: acc).reverse
+
 def handle (args : List String) : Option String :=
   match args with
   | ["run", nowait, joinT, offs, fails, threads, sched] => do
@@ -43,6 +68,13 @@ def handle (args : List String) : Option String :=
       let cfg : Cfg := ⟨nowait == "1", joinT == "1", fun r => fl.contains r.offset⟩
       let sched ← Util.parseNats sched
       return " ".intercalate (trace cfg (init reqs (← threads.toNat?)) sched [])
+  | ["xrun", offs, fails, threads, sched] => do
+      let offs ← Util.parseNats offs
+      let fl ← Util.parseNats fails
+      let reqs := offs.map fun o => (⟨o, 10⟩ : Req)
+      let f : Req → Bool := fun r => fl.contains r.offset
+      let sched ← Util.parseNats sched
+      return " ".intercalate (xtrace f (xinit reqs (← threads.toNat?)) sched [])
   | ["mu", n, threads] => do
       let n ← n.toNat?
       let reqs := (List.range n).map fun i => (⟨100 * i, 10⟩ : Req)
